@@ -37,7 +37,7 @@ const (
 )
 
 func main() {
-	var pkgs, files, scales, nogo, ospkgs, dense multi
+	var pkgs, files, scales, nogo, ospkgs, dense, chans multi
 	repo := flag.String("repo", "/repo", "repository root")
 	out := flag.String("out", "", "output directory for rewritten files")
 	flag.Var(&pkgs, "pkg", "package directory (relative to repo) to rewrite wholesale")
@@ -46,6 +46,7 @@ func main() {
 	flag.Var(&nogo, "keepgo", "file (relative) whose go statements stay real goroutines")
 	flag.Var(&ospkgs, "ospkg", "package directory whose import of \"os\" is replaced by the vos shim (file-system calls become crash points); only that import is touched")
 	flag.Var(&dense, "dense", "package directory or file (relative to repo, must also be rewritten) that gets a statement-level scheduling point (vsched.Stmt) in front of every statement")
+	flag.Var(&chans, "chan", "file (relative to repo, must also be rewritten) whose channel sends, receives, closes and two-clause selects with a default become scheduling points (vsched.Chan*)")
 	flag.Parse()
 	if *out == "" {
 		fatal("need -out")
@@ -128,6 +129,13 @@ func main() {
 			fatal("dense: %s is not among the rewritten files", f)
 		}
 	}
+	chanFiles := map[string]bool{}
+	for _, f := range chans {
+		if !targets[f] || osOnly[f] {
+			fatal("chan: %s is not among the rewritten files", f)
+		}
+		chanFiles[f] = true
+	}
 	overlay := map[string]string{}
 	var names []string
 	for f := range targets {
@@ -156,7 +164,7 @@ func main() {
 			}
 			stats["scaled"]++
 		}
-		res, st, err := rewriteFile(rel, src, !keep[rel] && !osOnly[rel], !osOnly[rel], osFiles[rel], denseFiles[rel])
+		res, st, err := rewriteFile(rel, src, !keep[rel] && !osOnly[rel], !osOnly[rel], osFiles[rel], denseFiles[rel], chanFiles[rel])
 		if err != nil {
 			fatal("%s: %v", rel, err)
 		}
@@ -181,7 +189,7 @@ func fatal(f string, a ...interface{}) {
 	os.Exit(2)
 }
 
-func rewriteFile(name string, src []byte, rewriteGo, rewriteSync, rewriteOS, denseStmts bool) ([]byte, map[string]int, error) {
+func rewriteFile(name string, src []byte, rewriteGo, rewriteSync, rewriteOS, denseStmts, rewriteChans bool) ([]byte, map[string]int, error) {
 	st := map[string]int{}
 	fset := token.NewFileSet()
 	f, err := parser.ParseFile(fset, name, src, parser.ParseComments)
@@ -289,6 +297,13 @@ func rewriteFile(name string, src []byte, rewriteGo, rewriteSync, rewriteOS, den
 		}
 	}
 	st["go_stmts"] = nGo
+	nChan := 0
+	if rewriteChans {
+		var err error
+		if nChan, err = rewriteChannels(f, st); err != nil {
+			return nil, nil, err
+		}
+	}
 	nStmt := 0
 	if denseStmts {
 		// vsched__.Stmt("file:line") in front of every statement of every function body (nested blocks, case and
@@ -372,7 +387,7 @@ func rewriteFile(name string, src []byte, rewriteGo, rewriteSync, rewriteOS, den
 			return true
 		})
 	}
-	if nGo > 0 || nStmt > 0 {
+	if nGo > 0 || nStmt > 0 || nChan > 0 {
 		// add import of vsched
 		spec := &ast.ImportSpec{Name: ast.NewIdent("vsched__"), Path: &ast.BasicLit{Kind: token.STRING, Value: strconv.Quote(vschedPath)}}
 		decl := &ast.GenDecl{Tok: token.IMPORT, Specs: []ast.Spec{spec}}
@@ -418,4 +433,209 @@ func goRepl(g *ast.GoStmt) ast.Stmt {
 			}},
 		}},
 	}}
+}
+
+// rewriteChannels turns the channel operations of a file into calls of the vsched channel helpers:
+//
+//	ch <- v                                   -> vsched__.ChanSend(ch, v)
+//	<-ch  (statement or inside an expression) -> vsched__.ChanRecv(ch)
+//	v, ok := <-ch / v, ok = <-ch              -> ... vsched__.ChanRecv2(ch)
+//	close(ch)                                 -> vsched__.ChanClose(ch)
+//	select { case ch <- v: A; default: B }    -> if vsched__.ChanTrySend(ch, v) { A } else { B }
+//	select { case <-ch: A; default: B }       -> if _, _, got__ := vsched__.ChanTryRecv(ch); got__ { A } else { B }
+//
+// Any other select statement is left as it is (counted in select_untouched); range over a channel is not recognised
+// (no type information) and stays a plain Go loop.
+func rewriteChannels(f *ast.File, st map[string]int) (int, error) {
+	n := 0
+	sel := func(name string) ast.Expr {
+		return &ast.SelectorExpr{X: ast.NewIdent("vsched__"), Sel: ast.NewIdent(name)}
+	}
+	isRecv := func(e ast.Expr) (*ast.UnaryExpr, bool) {
+		for {
+			if p, ok := e.(*ast.ParenExpr); ok {
+				e = p.X
+				continue
+			}
+			break
+		}
+		u, ok := e.(*ast.UnaryExpr)
+		return u, ok && u.Op == token.ARROW
+	}
+	var rwExpr func(e *ast.Expr)
+	rwExpr = func(e *ast.Expr) {
+		if e == nil || *e == nil {
+			return
+		}
+		if u, ok := isRecv(*e); ok {
+			rwExpr(&u.X)
+			*e = &ast.CallExpr{Fun: sel("ChanRecv"), Args: []ast.Expr{u.X}}
+			n++
+			st["chan_recv"]++
+			return
+		}
+		if c, ok := (*e).(*ast.CallExpr); ok {
+			if id, ok := c.Fun.(*ast.Ident); ok && id.Name == "close" && len(c.Args) == 1 {
+				c.Fun = sel("ChanClose")
+				n++
+				st["chan_close"]++
+			}
+		}
+	}
+	skip := map[ast.Node]bool{} // comm statements of selects that stay as they are
+	// first pass: selects and statements in statement lists
+	var fixList func(list []ast.Stmt)
+	fixStmt := func(s ast.Stmt) ast.Stmt {
+		switch x := s.(type) {
+		case *ast.SendStmt:
+			n++
+			st["chan_send"]++
+			return &ast.ExprStmt{X: &ast.CallExpr{Fun: sel("ChanSend"), Args: []ast.Expr{x.Chan, x.Value}}}
+		case *ast.AssignStmt:
+			if len(x.Lhs) == 2 && len(x.Rhs) == 1 {
+				if u, ok := isRecv(x.Rhs[0]); ok {
+					x.Rhs[0] = &ast.CallExpr{Fun: sel("ChanRecv2"), Args: []ast.Expr{u.X}}
+					n++
+					st["chan_recv"]++
+				}
+			}
+		case *ast.SelectStmt:
+			var def, other *ast.CommClause
+			if len(x.Body.List) == 2 {
+				for _, c := range x.Body.List {
+					cc := c.(*ast.CommClause)
+					if cc.Comm == nil {
+						def = cc
+					} else {
+						other = cc
+					}
+				}
+			}
+			if def != nil && other != nil {
+				if snd, ok := other.Comm.(*ast.SendStmt); ok {
+					n++
+					st["chan_trysend"]++
+					return &ast.IfStmt{
+						Cond: &ast.CallExpr{Fun: sel("ChanTrySend"), Args: []ast.Expr{snd.Chan, snd.Value}},
+						Body: &ast.BlockStmt{List: other.Body},
+						Else: &ast.BlockStmt{List: def.Body},
+					}
+				}
+				if es, ok := other.Comm.(*ast.ExprStmt); ok {
+					if u, ok := isRecv(es.X); ok {
+						n++
+						st["chan_tryrecv"]++
+						return &ast.IfStmt{
+							Init: &ast.AssignStmt{Lhs: []ast.Expr{ast.NewIdent("_"), ast.NewIdent("_"), ast.NewIdent("got__")}, Tok: token.DEFINE,
+								Rhs: []ast.Expr{&ast.CallExpr{Fun: sel("ChanTryRecv"), Args: []ast.Expr{u.X}}}},
+							Cond: ast.NewIdent("got__"),
+							Body: &ast.BlockStmt{List: other.Body},
+							Else: &ast.BlockStmt{List: def.Body},
+						}
+					}
+				}
+			}
+			st["select_untouched"]++
+			for _, c := range x.Body.List {
+				if cc := c.(*ast.CommClause); cc.Comm != nil {
+					skip[cc.Comm] = true
+				}
+			}
+		}
+		return s
+	}
+	fixList = func(list []ast.Stmt) {
+		for i, s := range list {
+			if ls, ok := s.(*ast.LabeledStmt); ok {
+				ls.Stmt = fixStmt(ls.Stmt)
+				continue
+			}
+			list[i] = fixStmt(s)
+		}
+	}
+	ast.Inspect(f, func(nd ast.Node) bool {
+		switch x := nd.(type) {
+		case *ast.BlockStmt:
+			fixList(x.List)
+		case *ast.CaseClause:
+			fixList(x.Body)
+		case *ast.CommClause:
+			fixList(x.Body)
+		}
+		return true
+	})
+	// second pass: receive expressions and close calls wherever an expression can stand
+	ast.Inspect(f, func(nd ast.Node) bool {
+		if nd != nil && skip[nd] {
+			return false
+		}
+		switch x := nd.(type) {
+		case *ast.ExprStmt:
+			rwExpr(&x.X)
+		case *ast.AssignStmt:
+			for i := range x.Rhs {
+				rwExpr(&x.Rhs[i])
+			}
+		case *ast.ReturnStmt:
+			for i := range x.Results {
+				rwExpr(&x.Results[i])
+			}
+		case *ast.CallExpr:
+			for i := range x.Args {
+				rwExpr(&x.Args[i])
+			}
+		case *ast.BinaryExpr:
+			rwExpr(&x.X)
+			rwExpr(&x.Y)
+		case *ast.UnaryExpr:
+			if x.Op != token.ARROW {
+				rwExpr(&x.X)
+			}
+		case *ast.ParenExpr:
+			rwExpr(&x.X)
+		case *ast.IfStmt:
+			rwExpr(&x.Cond)
+		case *ast.SwitchStmt:
+			rwExpr(&x.Tag)
+		case *ast.ValueSpec:
+			for i := range x.Values {
+				rwExpr(&x.Values[i])
+			}
+		case *ast.KeyValueExpr:
+			rwExpr(&x.Value)
+		case *ast.CompositeLit:
+			for i := range x.Elts {
+				rwExpr(&x.Elts[i])
+			}
+		case *ast.IndexExpr:
+			rwExpr(&x.Index)
+		case *ast.SendStmt:
+			rwExpr(&x.Value)
+		case *ast.DeferStmt:
+			if id, ok := x.Call.Fun.(*ast.Ident); ok && id.Name == "close" && len(x.Call.Args) == 1 {
+				x.Call.Fun = sel("ChanClose")
+				n++
+				st["chan_close"]++
+			}
+		}
+		return true
+	})
+	// nothing may be left outside the selects that were left alone
+	left := 0
+	ast.Inspect(f, func(nd ast.Node) bool {
+		if nd != nil && skip[nd] {
+			return false
+		}
+		if u, ok := nd.(*ast.UnaryExpr); ok && u.Op == token.ARROW {
+			left++
+		}
+		if _, ok := nd.(*ast.SendStmt); ok {
+			left++
+		}
+		return true
+	})
+	if left != 0 {
+		return 0, fmt.Errorf("%d channel operations could not be rewritten", left)
+	}
+	return n, nil
 }
